@@ -298,9 +298,8 @@ Conversion<Unit::SpecificPower, Unit::SpecificPower::InchPoundPerSlinchPerSecond
 }
 
 template <typename NumericType>
-inline const std::
-    map<Unit::SpecificPower, std::function<void(NumericType* values, const std::size_t size)>>
-        MapOfConversionsFromStandard<Unit::SpecificPower, NumericType>{
+inline const ConversionTable<Unit::SpecificPower, NumericType>
+    MapOfConversionsFromStandard<Unit::SpecificPower, NumericType>{
           {Unit::SpecificPower::WattPerKilogram,
            Conversions<Unit::SpecificPower, Unit::SpecificPower::WattPerKilogram>::
                FromStandard<NumericType>},
@@ -316,9 +315,8 @@ inline const std::
 };
 
 template <typename NumericType>
-inline const std::
-    map<Unit::SpecificPower, std::function<void(NumericType* const values, const std::size_t size)>>
-        MapOfConversionsToStandard<Unit::SpecificPower, NumericType>{
+inline const ConversionTable<Unit::SpecificPower, NumericType>
+    MapOfConversionsToStandard<Unit::SpecificPower, NumericType>{
           {Unit::SpecificPower::WattPerKilogram,
            Conversions<Unit::SpecificPower, Unit::SpecificPower::WattPerKilogram>::
                ToStandard<NumericType>},
